@@ -174,14 +174,6 @@ fn sequence_doc(
     let mut rest = Vec::new();
     let mut prev_tall = false;
     for (index, chain) in sequence.chains.iter().enumerate() {
-        // A broken sequence keeps the comma where a newline alone would not end this step (a
-        // comment does).
-        if index > 0
-            && !trivia.has_trailing(sequence.chains[index - 1].span)
-            && needs_comma(trivia, &sequence.chains[index - 1], chain)
-        {
-            rest.push(pretty::if_break(pretty::text(","), pretty::nil()));
-        }
         let leading = if index == 0 && skip_first_leading {
             pretty::nil()
         } else {
@@ -189,6 +181,19 @@ fn sequence_doc(
         };
         let body = chain_doc(trivia, chain);
         let tall = is_tall_step(chain, &body);
+        // A broken sequence keeps the comma where a newline alone would not end this step (a
+        // comment does). Around a tall step the sequence is broken by hard lines, whatever the mode
+        // it is laid out in — an interpolation hole is rendered flat — so there the comma is plain.
+        if index > 0
+            && !trivia.has_trailing(sequence.chains[index - 1].span)
+            && needs_comma(trivia, &sequence.chains[index - 1], chain)
+        {
+            rest.push(if prev_tall || tall {
+                pretty::text(",")
+            } else {
+                pretty::if_break(pretty::text(","), pretty::nil())
+            });
+        }
         let item = pretty::concat(vec![leading, body, trivia.trailing_doc(chain.span)]);
         if index == 0 {
             first = item;
